@@ -50,7 +50,15 @@ RULE = ("exhaustive: every DAG on <=4 (quick) / <=5 (thorough) labelled nodes as
         "by IndependenceAssertion, so the API excludes them.  F state names, H magnitudes, I backends: not applicable - "
         "with an exact oracle no state, number or tensor is read (significance_level is only forwarded; the forwarded "
         "data / independencies / significance_level keyword arguments are checked).  G - single node, edgeless, isolated "
-        "nodes in results and in PDAGs, max_cond_vars = 0, empty PDAG, 9-10 variables.  J - variant and max_cond_vars "
+        "nodes in results and in PDAGs, max_cond_vars = 0, empty PDAG, 9-10 variables.  N - every name object handed to "
+        "pgmpy (columns, graph nodes, assertion events, ebunch entries, separating-set keys and members, latents) is "
+        "rebuilt so that it is equal but not identical to the other occurrences; ints above 256 and 2**24.  O - data "
+        "columns as list / pandas Index / numpy array, separating sets as tuple / list / set / frozenset, assertion "
+        "events as list / tuple / set / frozenset, latents as list / tuple / set / frozenset / iterator / generator "
+        "(PDAG's ebunch arguments must be lists: other containers raise TypeError in the constructor, reported).  "
+        "P - chains and out-trees on 9, 12, 16, 17, 33 (thorough: 9-33) nodes with the skeleton as CPDAG.  Q - not "
+        "applicable (no tables).  R - to_dag: latents x isolated nodes x required_edges; estimate: omitted defaults x "
+        "significance_level x n_jobs x letter case.  J - variant and max_cond_vars "
         "and return_type omitted (defaults), return_type in other letter case, build_skeleton called directly, "
         "independence_match as name and as function object, n_jobs 1 and 2, show_progress, to_dag(required_edges), "
         "PDAG latents.  K - estimate() with an invalid later argument (variant, return_type, ci_test name, "
@@ -132,6 +140,15 @@ def pick_names(rng, n):
             if list(s1 - {drop}) != [x for x in exp if x != drop] or list(s1 & set(p[1:])) != [x for x in exp if x != drop]:
                 raise RuntimeError("set difference order assumption broken")
     return names, sord
+
+
+def fr(nm):
+    """an object equal to nm but not identical to it (strings rebuilt from their characters, ints above 256 re-parsed)"""
+    if isinstance(nm, str) and len(nm) >= 2:
+        return "".join(list(nm))
+    if isinstance(nm, int) and not isinstance(nm, bool) and nm > 256:
+        return int(str(nm))
+    return nm
 
 
 # ------------------------------------------------------------------ cases
@@ -228,6 +245,13 @@ def cases(tier, seed):
             truths.append(edges)
         out.append({"kind": "session", "n": n, "truths": truths, "oseed": rng.randint(0, 10**9)})
     # 9-10 variables (a set of small ints iterates in increasing order only below 8; names of any type)
+    # chains and out-trees of threshold sizes (9, 12, 16, 17, 33 nodes): no v-structure, so the CPDAG is the skeleton
+    for n in ([9, 12, 17, 33] if tier == "quick" else [9, 10, 11, 12, 15, 16, 17, 24, 25, 31, 32, 33] * 3):
+        shape = rng.choice(["chain", "tree"])
+        lab = list(range(n))
+        rng.shuffle(lab)
+        edges = [[lab[i - 1] if shape == "chain" else lab[rng.randrange(i)], lab[i]] for i in range(1, n)]
+        out.append({"kind": "big", "n": n, "edges": edges, "oseed": rng.randint(0, 10**9), "shape": shape})
     nbig = 12 if tier == "quick" else 250
     for i in range(nbig):
         n = rng.choice([9, 10])
@@ -267,8 +291,8 @@ def shrink(case):
 def truth_dag(names, n, edges):
     from pgmpy.base import DAG
     g = DAG()
-    g.add_nodes_from(names[:n])
-    g.add_edges_from([(names[u], names[v]) for u, v in edges])
+    g.add_nodes_from([fr(x) for x in names[:n]])
+    g.add_edges_from([(fr(names[u]), fr(names[v])) for u, v in edges])
     return g
 
 
@@ -314,6 +338,12 @@ def frame(cols, rng=None):
     import pandas as pd
     if rng is None:
         return pd.DataFrame(np.zeros((2, len(cols)), dtype=int), columns=cols)
+    cols = [fr(c) for c in cols]
+    ck = rng.choice(["list", "index", "array"])
+    if ck == "index":
+        cols = pd.Index(cols, dtype=object) if any(isinstance(c, str) for c in cols) else pd.Index(cols)
+    elif ck == "array" and all(isinstance(c, str) for c in cols):
+        cols = np.array(cols, dtype=object)
     r = rng.choice([0, 1, 2, 3, 3])
     vals = np.array([[rng.randint(0, 1) for _ in cols] for _ in range(r)], dtype=int).reshape(r, len(cols))
     kind = rng.choice(["int", "bool", "float", "cat", "catstr"])
@@ -650,7 +680,7 @@ def run_truth(case, drv):
             for r in range(len(rest) + 1):
                 for Z in itertools.combinations(rest, r):
                     if o2(names2[x], names2[y], [names2[z] for z in Z]):
-                        asserts.append([names2[x], names2[y], [names2[z] for z in Z]])
+                        asserts.append([fr(names2[x]), fr(names2[y]), rng.choice([list, tuple, set, frozenset])(fr(names2[z]) for z in Z)])
         ind = Independencies(*asserts)
         present = sorted(idx2[v] for v in ind.get_all_variables())
         if present == list(range(n)):
@@ -710,9 +740,11 @@ def odd_names(rng, n):
             "", "a b", "é", 1000003]
     style = rng.choice(["mixed", "str", "int"])
     if style == "str":
-        pool = [v for v in pool if isinstance(v, str)] + ["n%d" % i for i in range(12)]
+        pool = [v for v in pool if isinstance(v, str)] + ["n%d" % i for i in range(40)]
     elif style == "int":
-        pool = list(range(0, 40))
+        pool = list(range(0, 40)) + [255, 256, 257, 1000, 70000, 2**24 + 1]
+    else:
+        pool = pool + ["v%d" % i for i in range(20)] + list(range(100, 112))
     rng.shuffle(pool)
     out = []
     for v in pool:
@@ -804,12 +836,12 @@ def run_s2p(case, drv):
     rng.shuffle(vars_)
     p = rng.choice([0.3, 0.5, 0.7])
     sk = nx.Graph()
-    sk.add_nodes_from([names[i] for i in vars_])
+    sk.add_nodes_from([fr(names[i]) for i in vars_])
     E = []
     for u, v in itertools.combinations(vars_, 2):
         if rng.random() < p:
             E.append((u, v))
-            sk.add_edge(names[u], names[v])
+            sk.add_edge(fr(names[u]), fr(names[v]))
     seps, sepd = [], {}
     for u, v in itertools.combinations(range(n), 2):
         if (u, v) in E or (v, u) in E:
@@ -819,7 +851,7 @@ def run_s2p(case, drv):
         rest = [z for z in range(n) if z not in (u, v)]
         S = [z for z in rest if rng.random() < 0.4]
         seps.append([u, v, S])
-        sepd[frozenset((names[u], names[v]))] = tuple(names[z] for z in S)
+        sepd[frozenset((fr(names[u]), fr(names[v])))] = rng.choice([tuple, list, set, frozenset])(fr(names[z]) for z in S)
     snap = (list(sk.nodes()), sorted(map(sorted, sk.edges())), dict(sepd))
     try:
         g = pdag_arcs(PC.skeleton_to_pdag(sk, sepd), idx)
@@ -896,13 +928,17 @@ def run_todag(case, drv):
     rng.shuffle(dire)
     rng.shuffle(und)
     und = [(a, b) if rng.random() < 0.5 else (b, a) for a, b in und]
-    de = [(names[a], names[b]) for a, b in dire]
-    ue = [(names[a], names[b]) for a, b in und]
+    de = [(fr(names[a]), fr(names[b])) for a, b in dire]
+    ue = [(fr(names[a]), fr(names[b])) for a, b in und]
     de0, ue0 = list(de), list(ue)
     used = sorted({x for e in arcs for x in e})
-    lat = [names[x] for x in used if rng.random() < 0.2] if rng.random() < 0.4 else []
+    lat = [fr(names[x]) for x in used if rng.random() < 0.2] if rng.random() < 0.4 else []
+    lat_expected = sorted(map(repr, lat))
+    lat = rng.choice([list, tuple, set, frozenset, iter, (lambda l: (x for x in l))])(lat)
     p = PDAG(directed_ebunch=de, undirected_ebunch=ue, latents=lat) if (lat or rng.random() < 0.5) \
         else PDAG(de, ue)
+    if sorted(map(repr, p.latents)) != lat_expected:
+        return bad("impl!=spec:PDAG-latents", {"expected": lat_expected, "impl": sorted(map(repr, p.latents))})
     if (de, ue) != (de0, ue0):
         return bad("impl!=spec:PDAG-mutates-arguments", {"directed": de0, "undirected": ue0})
     iso = [nm for nm in names if idx[nm] not in used and rng.random() < 0.7]
@@ -998,7 +1034,11 @@ def run_big(case, drv):
     n, edges = case["n"], [tuple(e) for e in case["edges"]]
     rng = random.Random(case["oseed"])
     tags = ["big n=%d" % n, "edges=%d" % len(edges)]
-    b = spec_only_route(case, drv, rng, n, edges, None, tags)
+    spec = None
+    if case.get("shape"):       # every node has at most one parent: the whole class is reversible
+        spec = aset([(u, v) for u, v in edges] + [(v, u) for u, v in edges])
+        tags.append("shape=" + case["shape"])
+    b = spec_only_route(case, drv, rng, n, edges, spec, tags)
     if b:
         return b
     return ok(nontrivial=True, tags=tags, key=common.canon_key(["big", n, sorted(edges), case["oseed"]]))
@@ -1038,8 +1078,8 @@ def run_indsession(case, drv):
         if not set(have) <= set(cur):
             return bad("harness:sub-DAG-lost-an-independence", {"edges": edges})
         rng.shuffle(new)
-        ind.add_assertions(*[[names[x], names[y], [names[z] for z in Z]] if rng.random() < 0.5
-                             else [names[y], names[x], [names[z] for z in reversed(Z)]] for x, y, Z in new])
+        ind.add_assertions(*[[fr(names[x]), fr(names[y]), rng.choice([list, tuple, set])(fr(names[z]) for z in Z)] if rng.random() < 0.5
+                             else (fr(names[y]), fr(names[x]), [fr(names[z]) for z in reversed(Z)]) for x, y, Z in new])
         have |= set(new)
         present = sorted(idx[v] for v in ind.get_all_variables())
         if present == list(range(n)):
